@@ -6,6 +6,7 @@
 package main
 
 import (
+	"os"
 	"bufio"
 	"fmt"
 	"io"
@@ -72,6 +73,7 @@ func genRunAt(w *bufio.Writer, rng *rand.Rand, run int, stats map[string]int, sh
 		startHeight = 0 // first block after genesis
 	}
 	fmt.Fprintf(w, "RUN %d N %d CFG %d %d %d\n", run, N, inc, amev, b2i(dyn))
+	stats["increment-of-this-run"] = int(inc)
 	stats[fmt.Sprintf("N=%d", N)]++
 	stats[fmt.Sprintf("amev=%v", amev >= 0)]++
 	stats[fmt.Sprintf("dyn=%v", dyn)]++
@@ -188,7 +190,7 @@ func genRunAt(w *bufio.Writer, rng *rand.Rand, run int, stats map[string]int, sh
 		case 3:
 			return &Payload{dbft.ChangeViewType, h, v, idx, chView{byte(1 + rng.Intn(3)), 0, uint64(ref.epoch + int64(rng.Intn(1000)))}}
 		case 4:
-			return &Payload{dbft.PrepareRequestType, h, v, idx, prepReq{uint64(ref.epoch/1000000*1000000 + rng.Int63n(9e9)), uint64(rng.Intn(99)), []H{Tx(uint64(h)*10 + 1).Hash()}}}
+			return &Payload{dbft.PrepareRequestType, h, v, idx, prepReq{uint64(ref.epoch + rng.Int63n(9e9)), uint64(rng.Intn(99)), []H{Tx(uint64(h)*10 + 1).Hash()}}}
 		case 5:
 			return &Payload{dbft.RecoveryRequestType, h, v, idx, recReq{uint64(ref.epoch + int64(rng.Intn(1000)))}}
 		default:
@@ -393,10 +395,19 @@ func shiftRuns(w *bufio.Writer, seed int64, from, to int, stats map[string]int) 
 	for run := from; run < to; run++ {
 		D := offsets[run%len(offsets)]
 		sink := bufio.NewWriter(io.Discard)
+		runInc := int64(0)
 		exec := func(shift int64) []string {
 			var o []string
-			genRunAt(sink, rand.New(rand.NewSource(runSeed(seed, run))), run, map[string]int{}, shift, &o)
+			st := map[string]int{}
+			genRunAt(sink, rand.New(rand.NewSource(runSeed(seed, run))), run, st, shift, &o)
+			runInc = int64(st["increment-of-this-run"])
 			return o
+		}
+		if run%2 == 1 {
+			// every other run: an offset that is a multiple of THIS run's timestamp increment only (not of a millisecond or a
+			// second unless the increment is): sub-millisecond grids must shift too
+			exec(0)
+			D = runInc * []int64{7, 301, 100003, -13}[(run/2)%4]
 		}
 		same := func(x, y []string) int {
 			for i := 0; i < len(x) || i < len(y); i++ {
@@ -409,6 +420,22 @@ func shiftRuns(w *bufio.Writer, seed int64, from, to int, stats map[string]int) 
 		// the library iterates Go maps when it replays cached payloads, so two executions with the SAME clock can
 		// differ; such runs say nothing about clocks and are skipped (counted)
 		a, b := exec(0), exec(D)
+		if os.Getenv("VERIF_DUMP_SHIFT") != "" {
+			for i := 0; i < len(a) || i < len(b); i++ {
+				x, y := "", ""
+				if i < len(a) {
+					x = a[i]
+				}
+				if i < len(b) {
+					y = b[i]
+				}
+				mark := " "
+				if x != y {
+					mark = "!"
+				}
+				fmt.Fprintf(os.Stderr, "%s %4d A %s\n%s %4d B %s\n", mark, i, x, mark, i, y)
+			}
+		}
 		stats["shift-runs"]++
 		stats[fmt.Sprintf("shift-D=%d", D)]++
 		fmt.Fprintf(w, "RUN %d N 0 CFG 0 0 0\n", run)
